@@ -73,7 +73,18 @@ def run_one(case, acc):
     samples = sorted(obs["handler_samples"], key=lambda s: s["t"])
     final = obs["phases"][-1]["h"]
     if obs["max_live"] > 1:
-        acc.violation({"mech": "two_live_control_loops"}, f"{obs['max_live']} control loops of one run alive at once: {obs['loop_log'][-6:]}", wit)
+        acc.note("old_control_loop_still_unwinding_when_new_one_started")
+    # two control loops EXECUTING the same run: an older loop processes a tick after a newer loop of that run has processed one
+    seen_order, newest = [], {}
+    for (rid_obj, run_id, tname, t) in cs.tr.extra.get("proc_log", []):
+        if rid_obj not in seen_order:
+            seen_order.append(rid_obj)
+        cur = newest.get(run_id)
+        if cur is None or seen_order.index(rid_obj) >= seen_order.index(cur):
+            newest[run_id] = rid_obj
+        else:
+            acc.violation({"mech": "two_control_loops_executing_one_run"}, f"an older control loop of run {run_id} processed {tname} at vt={t} after a newer loop had taken over; loops: {obs['loop_log'][-6:]}", wit)
+            break
     if case["mode"] == "after":
         before, after = samples[0], samples[1]
         acc.hit("not_released_early_checked")
